@@ -183,6 +183,11 @@ class FPDomain(Domain):
         return Num(self, z3.If(z3.fpIsNaN(a.t), b.t, z3.If(z3.fpIsNaN(b.t), a.t,
                                                          z3.If(z3.fpGEQ(a.t, b.t), a.t, b.t))))
 
+    def copysign(self, a, b):
+        if a.conc is not None and b.conc is not None:
+            return Num(self, None, math.copysign(a.conc, b.conc))
+        return Num(self, z3.If(z3.fpIsNegative(b.t), z3.fpNeg(z3.fpAbs(a.t)), z3.fpAbs(a.t)))
+
     def min(self, a, b):
         if a.conc is not None and b.conc is not None:
             if a.conc != a.conc:
@@ -358,6 +363,13 @@ class RealDomain(Domain):
         if a.conc is not None and b.conc is not None:
             return a if a.conc >= b.conc else b
         return Num(self, z3.If(a.t >= b.t, a.t, b.t))
+
+    def copysign(self, a, b):
+        # (the sign of a zero b is not representable in the reals: taken as positive)
+        if a.conc is not None and b.conc is not None:
+            return Num(self, None, abs(a.conc) if b.conc >= 0 else -abs(a.conc))
+        aa = z3.If(a.t >= 0, a.t, -a.t)
+        return Num(self, z3.If(b.t < 0, -aa, aa))
 
     def min(self, a, b):
         if a.conc is not None and b.conc is not None:
